@@ -6,6 +6,7 @@ package mon
 
 import (
 	"math/rand/v2"
+	"os"
 	"testing"
 )
 
@@ -47,7 +48,7 @@ func TestC20(t *testing.T) {
 		return
 	}
 	part := r.Cfg.Part
-	if part == "" || part == "B" {
+	if (part == "" || part == "B") && os.Getenv("VERIF_RACE_NO_BUBBLES") == "" {
 		// small fake-clock block (the race build is kept away from thousands of bubbles, see C08)
 		r.Parallel(t, "race-virtual-priority", r.Cfg.pick(120, 200), func(t *testing.T, idx int, rng *rand.Rand) {
 			c := r.prioCase(t, genPrioScenario(rng, prioGen{Vers: allVers, Dividers: allDividers, Mode: []string{"general", "terminate", "stop"}[rng.IntN(3)], MaxH: 24}))
